@@ -214,9 +214,7 @@ nharness! {
         kani::assume(min <= old && old <= 17);
         let reach: u8 = kani::any();
         let req_origin: u64 = kani::any();
-        let deadline_s: i64 = kani::any();
-        let deadline_n: u32 = kani::any();
-        kani::assume(deadline_s >= 0 && deadline_s < (1 << 40) && deadline_n < 1_000_000_000);
+        let dl = any_deadline();
         let origin_match: bool = kani::any();
         let send_raw: u64 = kani::any();
         let recv_raw: u64 = kani::any();
@@ -227,7 +225,7 @@ nharness! {
         let last = core::cmp::max(desire, old);
         sh::set_last_poll_interval(&mut src, poll(last));
         sh::set_reach(&mut src, reach);
-        let deadline = tokio::time::Instant::from_std(stubs::make_instant(deadline_s, deadline_n));
+        let deadline = deadline_from_now(&dl);
         sh::set_pending(&mut src, Some((th::ts_from_raw(req_origin), None, deadline)));
 
         // leap bits 0, version 5, mode response; timescale UTC, flags = synchronized (concrete: a
